@@ -39,6 +39,7 @@ import (
 	"com.tuntun.rangers/node/src/consensus/model"
 	cnet "com.tuntun.rangers/node/src/consensus/net"
 	"com.tuntun.rangers/node/src/middleware"
+	"com.tuntun.rangers/node/src/middleware/notify"
 	middleware_pb "com.tuntun.rangers/node/src/middleware/pb"
 	"com.tuntun.rangers/node/src/middleware/types"
 	"com.tuntun.rangers/node/src/network"
@@ -508,6 +509,7 @@ func main() {
 	plog := &logical.VerifR1Logger{}
 	common.DefaultLogger = plog
 	middleware.PerfLogger = &logical.VerifR1Logger{}
+	notify.BUS = notify.NewBus() // round0.NextRound unsubscribes from it
 	mstub := &miningStub{}
 	cnet.MessageHandler.Init(groupCreateStub{}, mstub)
 	handlerProbe := func(bs []byte, decodable bool, kind string, input func() interface{}) {
@@ -917,11 +919,6 @@ func main() {
 				"replayed_at_start": nFut, "through_processor": procMode, "arrived_before_cast": nPre, "keys_registered_by_message": viaMsg, "faulty_registration": atk,
 				"outsider_id": outsiderID.String(), "squatted_member": squatted, "messages": ml}
 		}
-		for i := 0; i < nFut; i++ {
-			if strings.HasPrefix(msgs[i].kind, "long-id") || strings.HasPrefix(msgs[i].kind, "dup:long-id") {
-				nFut = i
-			}
-		}
 		// every message travels as the node sends it: protobuf bytes decoded by
 		// net.UnMarshalConsensusVerifyMessage, so the message id is the decoder's.  (The decoder cannot
 		// return a message whose share signature does not parse - it dereferences nil; such messages
@@ -948,26 +945,14 @@ func main() {
 			}
 			return c
 		}
-		// byte-identical copies of a stored message: the party keeps one per id and refuses the id
-		// afterwards (they carry nothing new); the runs deliver each stored message once
-		{
-			seenFut := map[string]bool{}
-			var kept []vmsg
-			nf := 0
-			for i, m := range msgs {
-				key := string(encode(m))
-				if i < nFut {
-					if seenFut[key] {
-						continue
-					}
-					seenFut[key] = true
-					nf++
-				} else if seenFut[key] {
-					continue
-				}
-				kept = append(kept, m)
+		// model-side message ids: one number per distinct byte string
+		byteID := map[string]int{}
+		midOf := func(m vmsg) int {
+			k := string(encode(m))
+			if _, ok := byteID[k]; !ok {
+				byteID[k] = len(byteID)
 			}
-			msgs, nFut = kept, nf
+			return byteID[k]
 		}
 		idIndex := map[string]int{}
 		idAll := map[string][]int{} // byte-identical messages share an id
@@ -988,10 +973,6 @@ func main() {
 			idAll[cvm.Id] = append(idAll[cvm.Id], i)
 			return cvm
 		}
-		var futCvm []*model.ConsensusVerifyMessage
-		for i := 0; i < nFut; i++ {
-			futCvm = append(futCvm, mkCvm(i))
-		}
 		// a quarter of the runs without stored messages go through the Processor: verify messages
 		// arriving before the cast message are kept by Processor.OnMessageVerify under their block
 		// hash, the party appears (cast message accepted), the node re-keys it and drains the kept
@@ -1003,11 +984,102 @@ func main() {
 			vp = logical.VerifR1NewProcessor(procLog)
 			nPre = r.Intn(len(msgs) + 1)
 		}
-		v, err0 := logical.VerifR1New(logical.VerifR1Config{Self: ids[0], Group: gInfo, PreBH: preBH, BH: bh, BlockExists: existed, Net: netStub, Future: futCvm})
-		if v == nil {
-			res.Violate("C15/harness:round-start", fmt.Sprint("round1.Start failed: ", err0), nil)
-			continue
+		// runs with nFut > 0: the party is still in round0 (checkBlock has announced the block hash but
+		// not finished) when the first nFut messages are handed to it: they are stored by id; then
+		// checkBlock finishes and the next Update moves the party into round1, whose Start replays them
+		var v *logical.VerifR1
+		var err0 interface{}
+		cfg := logical.VerifR1Config{Self: ids[0], Group: gInfo, PreBH: preBH, BH: bh, BlockExists: existed, Net: netStub}
+		storedFlag := make([]bool, nFut)
+		var startStep logical.VerifR1Step
+		hookStart := nFut > 0 && r.Bool()
+		if hookStart {
+			// the hook puts the messages into the party's future-message map itself (one per id) and
+			// calls round1.Start: keeps the round observable when the replay already finalises the block
+			seenBytes := map[string]bool{}
+			for i := 0; i < nFut; i++ {
+				key := string(encode(msgs[i]))
+				storedFlag[i] = !seenBytes[key]
+				if storedFlag[i] {
+					cfg.Future = append(cfg.Future, mkCvm(i))
+				} else {
+					mkCvm(i)
+				}
+				seenBytes[key] = true
+			}
+			plog.Take()
+			var vv *logical.VerifR1
+			var e0 *logical.Error
+			var startPanic interface{}
+			func() {
+				defer func() { startPanic = recover() }()
+				vv, e0 = logical.VerifR1New(cfg)
+			}()
+			if startPanic != nil {
+				res.Violate("C15/stored-replay:panic-abandons-stored-messages", fmt.Sprint("round1.Start let the panic of a replayed stored message escape, abandoning the other stored messages: ", startPanic), desc())
+				continue
+			}
+			if vv == nil {
+				res.Violate("C15/harness:round-start", fmt.Sprint("round1.Start failed: ", e0), nil)
+				continue
+			}
+			v = vv
+			startStep.Logs = append(v.Log.Take(), plog.Take()...)
+			if e0 != nil {
+				startStep.Err = e0.Error()
+			} else {
+				t := v.Tick()
+				startStep.Logs = append(startStep.Logs, t.Logs...)
+				startStep.Err, startStep.Done = t.Err, t.Done
+			}
+		} else if nFut > 0 {
+			v = logical.VerifR1NewWaiting(cfg)
+			seenBytes := map[string]bool{}
+			for i := 0; i < nFut; i++ {
+				st := v.Update(mkCvm(i))
+				storedFlag[i] = has(st.Logs, "store future message")
+				key := string(encode(msgs[i]))
+				if !storedFlag[i] && !seenBytes[key] {
+					res.Violate("C15/message-id:message-refused-unread:"+strings.TrimPrefix(msgs[i].kind, "dup:"), fmt.Sprintf("message %d (%s), handed to the party while round0 was still checking, was refused on its message id although no identical message had been delivered", i, msgs[i].kind), desc())
+				}
+				if storedFlag[i] == seenBytes[key] {
+					res.Histogram["stored-phase:flag-differs-from-byte-identity"]++
+				}
+				seenBytes[key] = true
+			}
+			plog.Take()
+			v.R0Ready()
+			startStep = v.Tick()
+			startStep.Logs = append(startStep.Logs, plog.Take()...)
+			if !v.Bind() {
+				// the replay reached the threshold and the party ran through round2 in the same Update:
+				// the hook cannot look at the round any more (the hook-started mode covers this case)
+				if len(v.Generated()) == 1 {
+					res.Count("run:finished-during-replay(round not observable)", fmt.Sprint("r", run, a.Seed), false)
+				} else {
+					res.Violate("C15/harness:round-start", "the party did not advance into round1", desc())
+				}
+				continue
+			}
+		} else {
+			var vv *logical.VerifR1
+			var e0 *logical.Error
+			var startPanic interface{}
+			func() {
+				defer func() { startPanic = recover() }()
+				vv, e0 = logical.VerifR1New(cfg)
+			}()
+			if startPanic != nil {
+				res.Violate("C15/stored-replay:panic-abandons-stored-messages", fmt.Sprint("round1.Start let the panic of a replayed stored message escape, abandoning the other stored messages: ", startPanic), desc())
+				continue
+			}
+			if vv == nil {
+				res.Violate("C15/harness:round-start", fmt.Sprint("round1.Start failed: ", e0), nil)
+				continue
+			}
+			v = vv
 		}
+		_ = err0
 		thr := v.Threshold()
 		obs := make([][2]int, len(msgs))
 		closed, finished := false, false
@@ -1017,13 +1089,18 @@ func main() {
 		var futOrder []int
 		var futObs []int
 		futTerm := tNone
+		var panicked []string // kinds of the messages that made the handler panic
 		if nFut > 0 {
-			lines := v.Log.Take()
+			lines := startStep.Logs
 			var seg []logical.VerifR1LogLine
 			cur := -1
 			flush := func() {
 				if cur >= 0 {
 					oc, _ := classify(logical.VerifR1Step{Logs: seg})
+					if has(seg, "round1 replay: message dropped") {
+						oc = oPanic
+						panicked = append(panicked, strings.TrimPrefix(msgs[cur].kind, "dup:"))
+					}
 					futOrder = append(futOrder, cur)
 					futObs = append(futObs, oc)
 					if oc == oAdded || oc == oRecovered {
@@ -1033,58 +1110,63 @@ func main() {
 				}
 				seg = nil
 			}
-			for _, l := range lines {
-				if strings.HasPrefix(l.Format, "round1 update, from:") {
-					flush()
-					cur = -1
-					if p := strings.LastIndex(l.Text, "id: "); p >= 0 {
-						if ii, ok := idIndex[strings.TrimSpace(l.Text[p+4:])]; ok && ii < nFut {
-							cur = ii
-						}
+			attribute := func(text, marker string) int {
+				if p := strings.LastIndex(text, marker); p >= 0 {
+					idt := strings.TrimSpace(text[p+len(marker):])
+					if q := strings.Index(idt, ","); q >= 0 {
+						idt = idt[:q]
 					}
+					if ii, ok := idIndex[idt]; ok && ii < nFut {
+						return ii
+					}
+				}
+				return -1
+			}
+			for _, l := range lines {
+				switch {
+				case strings.HasPrefix(l.Format, "round1 update, from:"):
+					flush()
+					cur = attribute(l.Text, "id: ")
 					if cur < 0 {
 						res.Violate("C15/harness:replay-log", "cannot attribute a replayed message: "+l.Text, desc())
 					}
+				case strings.HasPrefix(l.Format, "round1 replay: message dropped"):
+					// the message panicked before its first log line
+					flush()
+					cur = attribute(l.Text, "id: ")
+				case strings.HasPrefix(l.Format, "round2 start"):
+					flush()
+					cur = -1
 				}
 				seg = append(seg, l)
 			}
 			flush()
-			if err0 != nil {
-				if strings.Contains(err0.Error(), "block already existed") {
-					futTerm = tErrExisted
-				} else {
-					futTerm = tErrOther
+			_, futTerm = classify(startStep)
+			nStored := 0
+			for _, f := range storedFlag {
+				if f {
+					nStored++
 				}
+			}
+			if has(startStep.Logs, "recover error") {
+				// a stored message made Update panic inside round1.Start and nothing caught it there
+				futTerm2 := futTerm
+				_ = futTerm2
+				res.Violate("C15/stored-replay:panic-abandons-stored-messages", fmt.Sprintf("%d verify messages were stored while round0 was checking; one of them made round1.Update panic during the replay in round1.Start: only %d were replayed, the others are neither replayed nor accepted again (their ids stay refused)", nStored, len(futOrder)), desc())
+			} else if futTerm != tErrExisted && len(futOrder) != nStored {
+				res.Violate("C15/message-id:stored-messages-collapsed", fmt.Sprintf("%d verify messages were stored before the round started but %d were replayed", nStored, len(futOrder)), desc())
+			}
+			if futTerm == tDone {
+				finished = true
+			} else if futTerm != tNone {
 				closed = true
-			} else {
-				if len(futOrder) != nFut {
-					res.Violate("C15/message-id:stored-messages-collapsed", fmt.Sprintf("%d pairwise different verify messages were stored before the round started but only %d were replayed: different messages share a message id", nFut, len(futOrder)), desc())
-				}
-				st := v.Tick()
-				_, futTerm = classify(st)
-				if futTerm == tDone {
-					finished = true
-				} else if futTerm != tNone {
-					closed = true
-				}
 			}
 			finalTerm = futTerm
-			// unprocessed stored messages (after an error) go to the end of the replay list
-			seenF := map[int]bool{}
-			for _, x := range futOrder {
-				seenF[x] = true
-			}
-			for i := 0; i < nFut; i++ {
-				if !seenF[i] {
-					futOrder = append(futOrder, i)
-				}
-			}
 		} else {
 			v.Log.Take()
 		}
 		plog.Take()
-		var panicked []string // kinds of the messages that made the handler panic
-		order := []int{}      // indices of msgs in the order the party saw them (after the replayed ones)
+		order := []int{} // indices of msgs in the order the party saw them (after the replayed ones)
 		skipped := map[int]bool{}
 		waitEnd := func() int { // proc mode: the party ended; how?
 			for t := 0; t < 400 && !(vp.Finished(bhHash) && !vp.HasParty(bhHash)); t++ {
@@ -1108,6 +1190,7 @@ func main() {
 			}
 			return tErrOther
 		}
+		procLive := true // false while parsing the log of the concurrent hand-over afterwards
 		procStep := func(logs []logical.VerifR1LogLine) (int, int) {
 			oc, _ := classify(logical.VerifR1Step{Logs: logs})
 			if oc == oOther && !has(logs, "round1 update") {
@@ -1117,7 +1200,7 @@ func main() {
 			if oc == oExisted || has(logs, "round2 start") {
 				term = waitEnd()
 			}
-			if oc == oPanic {
+			if oc == oPanic && procLive {
 				// a recovered panic must leave the party alone: give waitUntilDone a moment to show otherwise
 				for t := 0; t < 12 && !vp.Finished(bhHash); t++ {
 					time.Sleep(5 * time.Millisecond)
@@ -1175,6 +1258,7 @@ func main() {
 				}
 			}
 			// split at the party's "update <id>" lines
+			procLive = false
 			var seg []logical.VerifR1LogLine
 			cur := -1
 			usedD := map[int]bool{}
@@ -1223,6 +1307,7 @@ func main() {
 				seg = append(seg, l)
 			}
 			flush()
+			procLive = true
 			if len(drained) != stored && !closed {
 				res.Violate("C15/processor:kept-message-lost", fmt.Sprintf("%d verify messages were kept for the block, %d reached the party", stored, len(drained)), desc())
 			}
@@ -1298,7 +1383,15 @@ func main() {
 				res.Violate(vkey("C15/valid-share-rejected"), fmt.Sprintf("message %d: the valid share of member %d was rejected (%s)", i, m.member, oNames[oc]), desc())
 			}
 			if oc == oRejected {
-				res.Violate("C15/message-id:message-refused-unread:"+strings.TrimPrefix(m.kind, "dup:"), fmt.Sprintf("message %d (%s) was refused on its message id without being examined although no identical message had been delivered", i, m.kind), desc())
+				identical := false
+				for j := 0; j < nFut; j++ {
+					if storedFlag[j] && string(encode(msgs[j])) == string(encode(m)) {
+						identical = true
+					}
+				}
+				if !identical {
+					res.Violate("C15/message-id:message-refused-unread:"+strings.TrimPrefix(m.kind, "dup:"), fmt.Sprintf("message %d (%s) was refused on its message id without being examined although no identical message had been stored or replayed", i, m.kind), desc())
+				}
 			}
 			grew := len(v.GIDs()) > before
 			if !grew && (oc == oAdded || oc == oRecovered) {
@@ -1431,15 +1524,17 @@ func main() {
 		for _, h := range b.h {
 			hsl = append(hsl, zs(h))
 		}
-		var ml, ol, al, fl, fol []string
+		var ml, ol, al, dl, dfl, rol, robl []string
 		coqMsg := func(m vmsg) string {
-			return fmt.Sprintf("(%s,%d%%nat,%s,%s)", zs(m.sender), m.dh, m.sig.coq(b), m.rsig.coq(b))
+			return fmt.Sprintf("(%d%%nat,%s,%d%%nat,%s,%s)", midOf(m), zs(m.sender), m.dh, m.sig.coq(b), m.rsig.coq(b))
 		}
-		for _, x := range futOrder {
-			fl = append(fl, coqMsg(msgs[x]))
+		for i := 0; i < nFut; i++ {
+			dl = append(dl, coqMsg(msgs[i]))
+			dfl = append(dfl, hx.CoqBool(storedFlag[i]))
 		}
-		for _, oc := range futObs {
-			fol = append(fol, fmt.Sprintf("%d%%N", oc))
+		for k2, x := range futOrder {
+			rol = append(rol, fmt.Sprintf("%d%%nat", midOf(msgs[x])))
+			robl = append(robl, fmt.Sprintf("%d%%N", futObs[k2]))
 		}
 		for _, i := range order {
 			ml = append(ml, coqMsg(msgs[i]))
@@ -1448,9 +1543,9 @@ func main() {
 		for _, ai := range admitted {
 			al = append(al, zs(msgs[ai].sender))
 		}
-		term := fmt.Sprintf("CRun %d%%Z %d%%nat %s %s %s %s %d%%nat %s %s %d%%N %s %s %s %s %s %s",
+		term := fmt.Sprintf("CRun %d%%Z %d%%nat %s %s %s %s %d%%nat %s %s %s %s %d%%N %s %s %s %s %s %s",
 			n, thr, hx.CoqList(mem), zs(g.gsk), hx.CoqBool(existed), hx.CoqList(hsl), prIdx,
-			hx.CoqList(fl), hx.CoqList(fol), futTerm, hx.CoqList(ml), hx.CoqList(ol), hx.CoqList(al), hx.CoqBool(recG), zs(gsScalar), zs(rsScalar))
+			hx.CoqList(dl), hx.CoqList(dfl), hx.CoqList(rol), hx.CoqList(robl), futTerm, hx.CoqList(ml), hx.CoqList(ol), hx.CoqList(al), hx.CoqBool(recG), zs(gsScalar), zs(rsScalar))
 		cs.Add(term, desc())
 
 		nByzSeen := 0
